@@ -10,15 +10,15 @@ TEXT = {
  'C07': ('exploration', 'Forwarding-topology generation (chains, diamonds, cycles, self-loops, typed forwards) x schedules; reachable-set / path / identity / termination against a graph-reachability model.', '7 C07'),
  'C08': ('exploration', 'Schedule search with an online observer: the public snapshot (status, signal, every result) taken when an event is first seen complete is compared after every later callback of the run.', '7 C08'),
  'C09': ('exploration', 'Program + schedule search; parent ids and per-result children compared with the harness\'s own dispatch records; event.event_bus read inside handlers.', '7 C09'),
- 'C10': ('fault_enumeration', 'Handler timeouts placed relative to handler progress (random placement in quick; in thorough every distinct handler-relative instant of a base run +/- 1us); cancellation at the deadline, TimeoutError result, containment, completion of everything touched, bus idles.', '7 C10'),
+ 'C10': ('fault_enumeration', 'Handler timeouts placed relative to handler progress: random placement plus an enumeration profile that sets an event timeout to every distinct handler-relative instant of a base run -1us / exactly / +1us (96 consecutive seeds per base program); cancellation at the deadline, TimeoutError result, containment, completion of everything touched, bus idles.', '7 C10'),
  'C11': ('exploration', 'Raise-position generation (sync/async, raise vs returned exception, before/after suspension, parents/children/forwarded buses) x schedules; same exception object recorded, everything else delivered exactly once, await never raises, accessors raise iff raise_if_any.', '7 C11'),
  'C13': ('exploration', 'History search with small max_history_size; length bound after every dispatch / processing step and eviction victims compared with a history model.', '7 C13'),
  'C14': ('exploration', 'Flood histories from callers and from inside handlers crossing the 50-queued / 100-in-flight limits; accept-or-raise, rejected leaves no trace, parents complete, accepted delivered once.', '7 C14'),
  'C15': ('exploration', 'wait_until_idle raced against external/nested/forwarded dispatches and the 0.1 s polls, after fault histories; bus state at the return instant, and return within 5 virtual seconds of idleness.', '7 C15'),
- 'C16': ('fault_enumeration', 'stop() / run-loop cancel / cancel-all injected before callback step k of base runs (random k in quick; every k in thorough); bounded return, no handler start afterwards, cancelled tasks terminate.', '7 C16'),
- 'C17': ('fault_enumeration', 'WAL on a simulated file system: lines vs WAL model fault-free; I/O fault at chosen op indexes (every index in thorough): processing unaffected, errors reported, unaffected lines intact.', '7 C17'),
+ 'C16': ('fault_enumeration', 'stop() / run-loop cancel / cancel-all (what asyncio.run() does at exit) injected immediately before callback step k of base runs: random k plus an enumeration profile that walks k = 1..256 over one base run (256 consecutive seeds); bounded return, no handler start afterwards, cancelled tasks terminate.', '7 C16'),
+ 'C17': ('fault_enumeration', 'WAL on a simulated in-memory file system with latency: every write call vs the WAL model (one faithful line per processing, in order, after the handlers) fault-free; mkdir/open/write/short-write/close faults at random op indexes plus an enumeration profile placing a fault at every I/O op index 0..63 of a base run: processing unaffected, one error report per failed attempt, every complete line intact and round-tripping.', '7 C17'),
  'C18': ('exploration', 'Event streams x filters x timeouts x concurrent expects x cancellation steps; returned event admissible w.r.t. the processing record, exact timeout, handler registry restored.', '7 C18'),
- 'C19': ('fault_enumeration', 'Outcome scripts x parameters x caller cancellation instants in virtual time; equality with an executable retry model (attempt count, exact attempt start times, outcome identity).', '7 C19'),
+ 'C19': ('fault_enumeration', 'Outcome scripts x parameters x caller cancellation: random instants plus an enumeration profile cancelling at every distinct instant of the model run (-1us / exactly / +1us / mid-interval); equality with an executable retry model (attempt count, exact attempt start times in virtual time, outcome and exception identity).', '7 C19'),
  'C20': ('exploration', 'Caller schedules, outcome mixes, cancellations and successive event loops against an occupancy model; capacity probe after quiescence.', '7 C20'),
 }
 import sys
